@@ -110,13 +110,13 @@ Proof.
   rewrite H. destruct (spec_kres_is_method sp sq) as [m [Hm Hlt]]. rewrite Hm. exact Hlt.
 Qed.
 
-Lemma control_of_in pi pr sc : wf_params pi -> wf_params pr -> In (control_of pi pr sc) all_ctls.
+Lemma control_of_in pi pr sc : wf_params pi -> wf_params pr -> In (control0 pi pr sc) all_ctls.
 Proof.
   intros Hi Hr. pose proof (sel_method_lt pi pr Hi Hr) as Hm.
-  unfold control_of. set (m := sel_method pi pr) in *.
+  unfold control0. set (m := sel_method pi pr) in *.
   match goal with |- In {| c_method := m; c_enc_i := ?ei; c_id_i := ?ii; c_sign_i := ?si; c_enc_r := ?er; c_id_r := ?ir;
                            c_sign_r := ?sr; c_bond_i := ?bi; c_bond_r := ?br; c_pin_eq := ?pe; c_nc_i := ?ni; c_nc_r := ?nr;
-                           c_fdb := ?fd; c_pk_eq := ?pk |} _ =>
+                           c_fdb := ?fd; c_pk_eq := ?pk; c_hi := 0; c_hr := 0 |} _ =>
     change (In (mk_ctl m (pe, ni, nr, fd, pk) ei ii si er ir sr bi br) all_ctls) end.
   apply in_all_ctls; [exact Hm|].
   assert (Hc : m = 0 \/ m = 1 \/ m = 2 \/ m = 3 \/ m = 4 \/ m = 5 \/ m = 6) by lia.
@@ -137,14 +137,16 @@ Qed.
 Lemma all_ctls_length : N.of_nat (length all_ctls) = 8192.
 Proof. vm_compute. reflexivity. Qed.
 
-Lemma chk_sweep : forallb (fun c => chk_result c (sym_run c)) all_ctls = true.
-Proof. vm_compute. reflexivity. Qed.
+(** for ARBITRARY connection handles on the two sides (free variables: the evaluation never inspects them) *)
+Lemma chk_sweep : forall hi hr : N,
+  forallb (fun c => chk_result (set_handles hi hr c) (sym_run (set_handles hi hr c))) all_ctls = true.
+Proof. intros hi hr. vm_compute. reflexivity. Qed.
 
 Lemma chk_run pi pr sc : wf_params pi -> wf_params pr ->
   chk_result (control_of pi pr sc) (sym_run (control_of pi pr sc)) = true.
 Proof.
   intros Hi Hr.
-  pose proof (proj1 (forallb_forall _ all_ctls) chk_sweep _ (control_of_in pi pr sc Hi Hr)) as H.
+  pose proof (proj1 (forallb_forall _ all_ctls) (chk_sweep (a_handle pi) (a_handle pr)) _ (control_of_in pi pr sc Hi Hr)) as H.
   cbv beta in H. exact H.
 Qed.
 
@@ -324,16 +326,16 @@ Proof. induction n as [|n IH]; intros k a; cbn [fdr]; [reflexivity|]. rewrite Bo
 
 Lemma honest_method_1 pi pr sc : sel_method pi pr = 1 ->
   honest (control_of pi pr sc) = N.eqb (eff_pin_i pi pr sc) (eff_pin_r pi pr sc).
-Proof. intros H. unfold honest, control_of. cbn [c_pin_eq c_nc_i c_nc_r c_fdb c_pk_eq]. rewrite H. cbn [N.eqb Pos.eqb]. rewrite !andb_true_r. reflexivity. Qed.
+Proof. intros H. unfold honest, control_of, set_handles, control0. cbn [c_pin_eq c_nc_i c_nc_r c_fdb c_pk_eq]. rewrite H. cbn [N.eqb Pos.eqb]. rewrite !andb_true_r. reflexivity. Qed.
 
 Lemma honest_method_4 pi pr sc : sel_method pi pr = 4 ->
   honest (control_of pi pr sc) = u_nc_i sc && u_nc_r sc.
-Proof. intros H. unfold honest, control_of. cbn [c_pin_eq c_nc_i c_nc_r c_fdb c_pk_eq]. rewrite H. cbn [N.eqb Pos.eqb]. rewrite !andb_true_r. reflexivity. Qed.
+Proof. intros H. unfold honest, control_of, set_handles, control0. cbn [c_pin_eq c_nc_i c_nc_r c_fdb c_pk_eq]. rewrite H. cbn [N.eqb Pos.eqb]. rewrite !andb_true_r. reflexivity. Qed.
 
 Lemma honest_method_5 pi pr sc : sel_method pi pr = 5 ->
   honest (control_of pi pr sc) = N.eqb (u_typed_i sc) (u_typed_r sc).
 Proof.
-  intros H. unfold honest, control_of. cbn [c_pin_eq c_nc_i c_nc_r c_fdb c_pk_eq]. rewrite H. cbn [N.eqb Pos.eqb andb].
+  intros H. unfold honest, control_of, set_handles, control0. cbn [c_pin_eq c_nc_i c_nc_r c_fdb c_pk_eq]. rewrite H. cbn [N.eqb Pos.eqb andb].
   destruct (N.eqb (u_typed_i sc) (u_typed_r sc)) eqn:E.
   - apply N.eqb_eq in E. rewrite E. unfold first_diff_round. rewrite fdr_same. reflexivity.
   - apply andb_false_r.
@@ -342,7 +344,7 @@ Qed.
 Lemma honest_method_other pi pr sc :
   sel_method pi pr <> 1 -> sel_method pi pr <> 4 -> sel_method pi pr <> 5 -> honest (control_of pi pr sc) = true.
 Proof.
-  intros H1 H4 H5. unfold honest, control_of. cbn [c_pin_eq c_nc_i c_nc_r c_fdb c_pk_eq].
+  intros H1 H4 H5. unfold honest, control_of, set_handles, control0. cbn [c_pin_eq c_nc_i c_nc_r c_fdb c_pk_eq].
   apply N.eqb_neq in H1, H4, H5. rewrite H1, H4, H5. reflexivity.
 Qed.
 
@@ -469,10 +471,12 @@ Qed.
 Lemma chk_sweep_from :
   forall (sti str cnti cntr : N) (ki kr li lr : option term) (ei er : bool),
     (sti = 0 \/ sti = 255) -> (str = 0 \/ str = 255) ->
-    forallb (fun c => chk_result c (sym_run_from (start_state sti cnti ki li ei) (start_state str cntr kr lr er) c))
+    forall hi hr : N,
+    forallb (fun c => chk_result (set_handles hi hr c)
+                        (sym_run_from (start_state sti cnti ki li ei) (start_state str cntr kr lr er) (set_handles hi hr c)))
             all_ctls = true.
 Proof.
-  intros sti str cnti cntr ki kr li lr ei er [-> | ->] [-> | ->]; vm_compute; reflexivity.
+  intros sti str cnti cntr ki kr li lr ei er [-> | ->] [-> | ->] hi hr; vm_compute; reflexivity.
 Qed.
 
 Lemma carry_start m s : startable s ->
@@ -507,7 +511,8 @@ Proof.
   destruct (carry_start m sr Hr) as [str [cntr [kr [lr [er [Hstr Er]]]]]].
   assert (F : run_facts (control_of pi pr sc) (sym_run_from (carry m si) (carry m sr) (control_of pi pr sc))).
   { rewrite Ei, Er. apply chk_result_facts.
-    pose proof (proj1 (forallb_forall _ _) (chk_sweep_from sti str cnti cntr ki kr li lr ei er Hsti Hstr) _
+    pose proof (proj1 (forallb_forall _ _) (chk_sweep_from sti str cnti cntr ki kr li lr ei er Hsti Hstr
+                                                          (a_handle pi) (a_handle pr)) _
                       (control_of_in pi pr sc Wi Wr)) as H.
     cbv beta in H. exact H. }
   constructor; [exact F|].
